@@ -129,6 +129,13 @@ def selfref(r):
     src = ("print: fn *X -> void : external\nB :: blob { n: * }\nE :: enum W *, N end\n"
            "f :: fn x, p do\n  y := x\n  q := p\n  q = %s\n  y = %s\n  %s\nend\nstart :: fn do\n%send\n"
            % (r.choice(["(y, 2)", "[y]", "p", "(q,)"]), embed, use, r.choice(["", "  f(1, 2)\n", "  f((1, 2), [3])\n"])))
+    if r.random() < 0.4:
+        # a structure that CONTAINS a parameter of still unknown type combined with that parameter itself: constraint
+        # solving must not keep refining the unknown into deeper and deeper tuples
+        wrap = r.choice(["(b, 1)", "((b, 1), 2)", "(1, (2, b))", "(b, b)", "(b, 1.0)", "([b], 1)", "((b,),)"])
+        op = r.choice(["a + b", "a - b", "a * b", "a / b", "b + a", "a / 2.0", "c := a / 2.0\n  [b, c]", "a < b", "a == b", "-a + b",
+                       "c := a + b\n  c + a", "b = a"])
+        src = ("g :: fn b do\n  a := %s\n  %s\nend\nstart :: fn do\n%send\n" % (wrap, op, r.choice(["", "  g(1)\n", "  g((1, 2))\n"])))
     return {"/main.sy": src}
 
 
